@@ -1108,7 +1108,9 @@ where
 
     if let Some(transform_group) = &fold_group.transform {
         if transform_group.retransform.is_some() {
-            unimplemented!("re-transforming a @fold @transform value is currently not supported");
+            errors.push(FrontendError::OtherError(
+                "re-transforming a @fold @transform value is currently not supported".to_string(),
+            ));
         }
 
         let fold_specific_field = match transform_group.transform.kind {
